@@ -22,6 +22,7 @@ func init() {
 			ruleErrorDiscipline(c, "C09.16")
 			ruleRejectedIDsRecorded(c, "C09.17")
 			ruleRegistryPairing(c, "C09.18")
+			ruleContextChain(c, "C09.19")
 		},
 		Explain:    "Static necessary conditions of robustness against a hostile peer: every index, slice, non-comma-ok type assertion and dereference of an optional protocol sub-message in functions that handle peer-controlled data is guarded by a dominating fact; every frame type switch has a default (and the accept switches a nil arm); each violation class has its documented outcome (stream-level vs tunnel-level split); bounded buffering (receiver bound and reassembly overrun checks); every settings input leads to close(awaitSettings) or the channel close; every close(ch) is once-guarded and the plain receiver's send-vs-close protocol holds; no function re-acquires a mutex it may already hold (self-deadlock on the receive loop).",
 		Assume:     []string{"after unmarshal, oneof wrapper payloads are non-nil while other message-typed fields may be nil", "proto getters not used; direct field access modelled"},
